@@ -252,12 +252,13 @@ func runWT(c WTCase) *pbt.Violation {
 	r.p.Close()
 	r.p.Conn.WaitPeerDone(lalclient.IdleTimeout)
 	index := indexOf(r.P)
+	pub := newPublished(codecs, r.items)
 	for i, a := range r.cons {
 		a.conn.SetRecvWindow(-1)
 		a.pc.set(-1)
 		settle(a)
 		a.spec.End = "write-timeout"
-		if v := checkFraming(a, i, index); v != nil {
+		if v := checkFraming(a, i, index, pub); v != nil {
 			return v
 		}
 	}
